@@ -227,10 +227,10 @@ func ParsePPSNALUnit(data []byte, spsMap map[uint32]*SPS) (*PPS, error) {
 		pps.NumTileRowsMinus1 = r.ReadExpGolomb()
 		pps.UniformSpacingFlag = r.ReadFlag()
 		if !pps.UniformSpacingFlag {
-			for i := uint(0); i < pps.NumTileColumnsMinus1; i++ {
+			for i := uint(0); i < pps.NumTileColumnsMinus1 && r.AccError() == nil; i++ {
 				pps.ColumnWidthMinus1 = append(pps.ColumnWidthMinus1, r.ReadExpGolomb())
 			}
-			for i := uint(0); i < pps.NumTileRowsMinus1; i++ {
+			for i := uint(0); i < pps.NumTileRowsMinus1 && r.AccError() == nil; i++ {
 				pps.RowHeightMinus1 = append(pps.RowHeightMinus1, r.ReadExpGolomb())
 			}
 		}
